@@ -1,6 +1,6 @@
 (** C01 - parsing is total: Ok or Err, never a panic, abort or hang (PARTIAL: "no stack exhaustion" is carried by the
     nesting counter of the parser model and measured on the real stack by the correspondence). *)
-From EE Require Import Chars OpTable Decimal Token Lexer Ast Parser Printer Api Utf8 LexerSpec LexerTiling ParserTotal.
+From EE Require Import Chars OpTable Decimal Token Lexer Ast Parser Printer Api Utf8 LexerSpec LexerTiling ParserTotal ParserFuel ParserHeight.
 Open Scope N_scope.
 
 (* the tokenizer never panics and its explicit fuel (length + 1) always suffices: it terminates on every string *)
@@ -21,6 +21,29 @@ Proof.
 Qed.
 Print Assumptions C01_no_panic.
 
+(* the parser terminates: every successful sub-parse consumes at least one token (progress, proved for all eight mutually
+   recursive parser functions), hence the explicit fuel 4*|tokens|+16 is never exhausted - for every table and every string.
+   This is the termination argument for the loops and recursions of parser.rs *)
+Theorem C01_progress : forall tbl tm f d ts a r,
+  parse_expression tbl tm f d ts = Ok (a, r) -> (length r < length ts)%nat.
+Proof. intros tbl tm f. exact (proj1 (parser_len tbl tm f)). Qed.
+Print Assumptions C01_progress.
+
+Theorem C01_terminates : forall tbl s, api_parse tbl s <> Fuel.
+Proof.
+  intros tbl s. unfold api_parse. destruct (lex tbl s) as [sts tm] eqn:E.
+  apply parse_tokens_terminates. exact (proj2 (C01_lexer_total tbl s sts tm E)).
+Qed.
+Print Assumptions C01_terminates.
+
+(* parsing is total: Ok or Err, nothing else *)
+Theorem C01_total : forall tbl s, (exists t, api_parse tbl s = Ok t) \/ api_parse tbl s = Err.
+Proof.
+  intros tbl s. pose proof (C01_no_panic tbl s) as P. pose proof (C01_terminates tbl s) as F.
+  destruct (api_parse tbl s) as [t| | |]; [left; exists t; reflexivity | right; reflexivity | contradiction | contradiction].
+Qed.
+Print Assumptions C01_total.
+
 (* the nesting guard: beyond MAX_DEPTH both entry points of a nesting level refuse with Err instead of recursing *)
 Theorem C01_depth_guard : forall tbl tm f d ts p lhs, MAX_DEPTH <= d ->
   parse_primary tbl tm (S f) d ts = Err /\ parse_op tbl tm (S f) d p lhs ts = Err.
@@ -29,6 +52,14 @@ Proof.
   destruct (N.ltb_spec MAX_DEPTH (d + 1)); [|lia]. split; reflexivity.
 Qed.
 Print Assumptions C01_depth_guard.
+
+(* every tree the parser returns is at most MAX_DEPTH (+1 for a multi-statement program) high, whatever the input:
+   the recursive consumers of the tree - Clone, Drop, exec, expr(), describe() - recurse at most that deep *)
+Theorem C01_ast_height : forall tbl s t, api_parse tbl s = Ok t -> ast_height t <= MAX_DEPTH + 1.
+Proof.
+  intros tbl s t H. unfold api_parse in H. destruct (lex tbl s) as [sts tm]. eapply parse_tokens_height. exact H.
+Qed.
+Print Assumptions C01_ast_height.
 
 (* rendering is total: expr() and describe() are structurally recursive functions of the tree - no lookup can fail, no
    index is computed (the `len()-1` of the Rust printers is not modelled as a subtraction but as "last element") *)
